@@ -32,7 +32,7 @@ ASSUMPTIONS = [
 PARTIAL = []
 REFUTED = ['C04_partial_unfixed_raises (the partial encoder BEFORE fixes/C04-partial-token-error.diff lets '
            'LatexWalkerTokenParseError escape; carried as documentation of F9, the model tracks the fixed code)']
-CASE_TIMEOUT = 4.0
+CASE_TIMEOUT = 2.0
 ALWAYS_SEARCH = False
 
 PROTS = ['none', 'braces', 'braces-all', 'braces-almost-all', 'braces-after-macro']
@@ -477,7 +477,7 @@ KEEPS = ['\\${}^_', '\\', '\\$', '%\\', ' \\{}', '\n\\$', '~&-\\', 'éa\\', '', 
 
 def _rand_string(rnd, tables, mode):
     k = rnd.random()
-    n = rnd.choice([0, 1, 2, 3, 5, 8, 12, 20])
+    n = rnd.choice([0, 1, 2, 3, 4, 6, 8, 12, 16, 24])
     parts = []
     for _ in range(n):
         x = rnd.random()
@@ -708,7 +708,8 @@ def distribution(cases, impl_out):
             b = r['body']
             kinds[b[0] + ':' + (b[1] if b[0] == 'dict' else b[1][0] if b[0] == 'callable' else 'list')] += 1
     outc = collections.Counter((i.split(' ')[0] if isinstance(i, str) else '!' + str(i[0])) for i in impl_out)
-    excs = collections.Counter(i for i in impl_out if isinstance(i, str) and i.startswith('E '))
+    excs = collections.Counter(i for c, i in zip(cases, impl_out)
+                               if c['desc']['kind'] == 'enc' and isinstance(i, str) and i.startswith('E '))
     return {
         'cases_by_kind': dict(collections.Counter(c['desc']['kind'] for c in cases)),
         'mode': dict(collections.Counter(d['mode'] for d in enc)),
